@@ -109,6 +109,34 @@ void ref_etree(const dmat *F, const int *perm_c, int n, int sym, int *parent)
     }
 }
 
+int o_glu_storage(const xs *s, vres *r)
+{
+    const GlobalLU_t *G = &s->Glu; const vf_type *T = s->T; if (!s->have_LU) return 0;
+    const SCformat *Ls = s->L.Store; const NCformat *Us = s->U.Store; int n = s->n;
+    long need_lusup = (long)Ls->nzval_colptr[n], need_lsub = (long)Ls->rowind_colptr[n], need_u = (long)Us->colptr[n];
+    if ((long)G->nzlumax < need_lusup || (long)G->nzlmax < need_lsub || (long)G->nzumax < need_u)
+        return wk_fail(r, "capacity-below-use", "recorded capacities nzlumax=%ld nzlmax=%ld nzumax=%ld are below what the factors occupy (%ld, %ld, %ld)", (long)G->nzlumax, (long)G->nzlmax, (long)G->nzumax, need_lusup, need_lsub, need_u);
+    if (s->lu_lwork == 0) {
+        struct { const void *p; long bytes; const char *name; } a[4] = {
+            { Ls->nzval, (long)G->nzlumax * (long)T->esz, "lusup" }, { Us->nzval, (long)G->nzumax * (long)T->esz, "ucol" },
+            { Ls->rowind, (long)G->nzlmax * (long)sizeof(int_t), "lsub" }, { Us->rowind, (long)G->nzumax * (long)sizeof(int_t), "usub" } };
+        for (int k = 0; k < 4; k++) { long have = vf_block_size(a[k].p); if (have >= 0 && have < a[k].bytes) return wk_fail(r, "capacity-exceeds-block", "Glu records room for %ld bytes in %s but the block it lives in was obtained with %ld bytes", a[k].bytes, a[k].name, have); }
+    } else if (s->lu_lwork > 0 && s->work) {
+        const char *w0 = (const char *)s->work, *w1 = w0 + s->lu_lwork;
+        const char *p[4] = { (const char *)Ls->nzval, (const char *)Us->nzval, (const char *)Ls->rowind, (const char *)Us->rowind };
+        long by[4] = { (long)G->nzlumax * (long)T->esz, (long)G->nzumax * (long)T->esz, (long)G->nzlmax * (long)sizeof(int_t), (long)G->nzumax * (long)sizeof(int_t) };
+        static const char *nm[4] = { "lusup", "ucol", "lsub", "usub" };
+        for (int k = 0; k < 4; k++) {
+            if (p[k] < w0 || p[k] + by[k] > w1) return wk_fail(r, "workspace-layout", "%s with its recorded capacity (%ld bytes) does not lie inside the caller's workspace", nm[k], by[k]);
+            if (k < 3 && p[k] + by[k] > p[k + 1]) return wk_fail(r, "workspace-layout", "%s with its recorded capacity (%ld bytes) overlaps %s", nm[k], by[k], nm[k + 1]);
+        }
+        long top1 = (long)G->stack.top1, top2 = (long)G->stack.top2, size = (long)G->stack.size, used = (long)G->stack.used;
+        if (!(0 <= top1 && top1 <= top2 && top2 <= size)) return wk_fail(r, "stack-invariant", "workspace stack: top1=%ld top2=%ld size=%ld", top1, top2, size);
+        if (used != top1 + size - top2) return wk_fail(r, "stack-invariant", "workspace stack: used=%ld but top1 + size - top2 = %ld", used, top1 + size - top2);
+    }
+    return 0;
+}
+
 /* ------------------------------------------------------------------ scaling
  * A_in/B_in: caller-orientation values before the call.  Checks equed, R, C, the values of A and B after the call. */
 static int one_of_assoc(const vf_type *T, xc a, xr r, xr c, int user, int usec, xc got)
